@@ -362,6 +362,59 @@ theorem wrap_inline_final (doc doc' : Doc) (v : Vars) (hu : UniqueNames doc.frag
   cases h3
   exact e
 
+mutual
+private theorem freeSel_erase (v : Vars) (nm : String) : ∀ s : Sel, freeSel nm (eraseSel v s) = freeSel nm s
+  | .field a n d sub => by simp only [eraseSel, freeSel]; exact freeL_erase v nm sub
+  | .inline d ss => by simp only [eraseSel, freeSel]; exact freeL_erase v nm ss
+  | .spread n d => by simp [eraseSel, freeSel]
+private theorem freeL_erase (v : Vars) (nm : String) : ∀ l : List Sel, freeL nm (eraseL v l) = freeL nm l
+  | [] => by simp [eraseL, freeL]
+  | s :: ss => by simp only [eraseL, freeL, freeSel_erase v nm s, freeL_erase v nm ss]
+end
+
+private theorem wrapSpread_erase (v : Vars) (nm : String) (body : List Sel) {s s' : List Sel} (h : WrapSpread nm body s s') :
+    WrapSpread nm (eraseL v body) (eraseL v s) (eraseL v s') := by
+  induction h with
+  | here pre post =>
+    simp only [eraseL_append, eraseL_cons, eraseSel, eraseD_none, eraseL]
+    exact .here _ _
+  | field pre post a n d sub sub' _ ih =>
+    simp only [eraseL_append, eraseL_cons, eraseSel, eraseL]
+    exact .field _ _ a n _ _ _ ih
+  | inline pre post d ss ss' _ ih =>
+    simp only [eraseL_append, eraseL_cons, eraseSel, eraseL]
+    exact .inline _ _ _ _ _ ih
+
+/-- **wrap_spread_in_fragment_final** — for the rule of today's tree and ANY request variables: moving a block of a
+    fragment body into a new (fresh) named fragment leaves `depthK` unchanged, for every operation. -/
+theorem wrap_spread_in_fragment_final (doc doc' : Doc) (v : Vars)
+    (hu : UniqueNames doc.frags) (ha : Acyclic doc.frags) (hu' : UniqueNames doc'.frags) (ha' : Acyclic doc'.frags)
+    (pre post : List Frag) (f : Frag) (nm : String) (body sels' : List Sel) (hw : WrapSpread nm body f.sels sels')
+    (hfr : doc.frags = pre ++ [f] ++ post)
+    (hfr' : doc'.frags = (pre ++ [⟨f.name, sels'⟩] ++ post) ++ [⟨nm, body⟩])
+    (hfresh : ∀ g ∈ doc.frags, g.name ≠ nm) (hfree : ∀ g ∈ doc.frags, freeL nm g.sels = true)
+    (hops : doc'.ops = doc.ops) (op : Op) (hop : op ∈ doc.ops) (hfreeop : freeL nm op.sels = true) :
+    depthK doc' v op = depthK doc v op := by
+  obtain ⟨d, d', _, _, _, e1, e2⟩ := wrap_spread_in_fragment_ge (eraseDoc v doc) (eraseDoc v doc') v
+    (valid_erase doc v hu ha) (valid_erase doc' v hu' ha') (eraseFrags v pre) (eraseFrags v post) (eraseFrag v f) nm
+    (eraseL v body) (eraseL v sels') (wrapSpread_erase v nm body hw)
+    (by simp [eraseDoc, eraseFrags, hfr]) (by simp [eraseDoc, eraseFrags, eraseFrag, hfr'])
+    (by
+      intro g hg
+      simp only [eraseDoc, eraseFrags, List.mem_map] at hg
+      obtain ⟨g0, hg0, rfl⟩ := hg
+      exact hfresh g0 hg0)
+    (by
+      intro g hg
+      simp only [eraseDoc, eraseFrags, List.mem_map] at hg
+      obtain ⟨g0, hg0, rfl⟩ := hg
+      simp only [eraseFrag, freeL_erase]
+      exact hfree g0 hg0)
+    (by simp [eraseDoc, hops]) (eraseOp v op) (List.mem_map_of_mem (f := eraseOp v) hop)
+    (by simp only [eraseOp, freeL_erase]; exact hfreeop)
+  unfold depthK
+  rw [← e1, ← e2]
+
 /-! ### non-vacuity: `{ ...F }  fragment F { a { c } d }` -/
 
 private theorem valid_of_checks' (doc : Doc) (vars : Vars) (h1 : acyclic doc.frags = true)
@@ -404,5 +457,11 @@ example : depthK d1 [("unused", true)] opF = depthK d0 [("unused", true)] opF :=
   wrap_inline_in_fragment_final d0 d1 _ (by unfold UniqueNames; decide) (acyclic_sound _ (by decide))
     (by unfold UniqueNames; decide) (acyclic_sound _ (by decide)) [] [] ⟨"F", [fA, fD]⟩ [.inline {} [fA], fD]
     (.here [] [fA] [fD]) rfl rfl rfl opF (by simp [d0])
+
+/-- `wrap_spread_in_fragment_final` instantiated on `d0` / `d2` -/
+example : depthK d2 [("unused", true)] opF = depthK d0 [("unused", true)] opF :=
+  wrap_spread_in_fragment_final d0 d2 _ (by unfold UniqueNames; decide) (acyclic_sound _ (by decide))
+    (by unfold UniqueNames; decide) (acyclic_sound _ (by decide)) [] [] ⟨"F", [fA, fD]⟩ "G" [fA] [.spread "G" {}, fD]
+    (.here [] [fD]) rfl rfl (by decide) (by decide) rfl opF (by simp [d0]) (by decide)
 
 end PyGql.Props.C19
